@@ -69,13 +69,32 @@ static void region_share(long c, ShadowHeap& h) {
     h.take(pa, "free"); scalable_free(pa); h.take(pb, "free"); scalable_free(pb);
 }
 static long NE = 3 * 2048;
+// ---- over-aligned requests whose size, or size + alignment, sits on a size-class boundary (last segregated size, the fitting sizes, the
+// first large size): four blocks in a row (so that a block that is aligned by chance does not hide a wrong path), each checked for
+// alignment, msize, disjointness and pattern survival, then realloc to the same and to a larger size, then freed out of order.
+static const size_t FB[7] = {1024, 1792, 2688, 4032, 5376, 8128, 8129}; static const long NF = 10 * 7 * 5 * 2;
+static void aligned_boundary(long c, ShadowHeap& h, char* desc) {
+    int sum = (int)(c % 2); c /= 2; long d = c % 5 - 2; c /= 5; size_t B = FB[c % 7]; c /= 7; size_t a = (size_t)16 << c;
+    long nn = (long)B + d - (sum ? (long)a : 0); sprintf(desc, "aligned boundary a=%zu n=%ld", a, nn); if (nn <= 0) return; size_t n = (size_t)nn;
+    unsigned char* p[4];
+    for (int i = 0; i < 4; i++) { p[i] = (unsigned char*)scalable_aligned_malloc(n, a); if (!p[i]) vf_fail("scalable_aligned_malloc(%zu,%zu) failed", n, a); h.add(p[i], n, a, "scalable_aligned_malloc");
+        if (scalable_msize(p[i]) < n) vf_fail("scalable_msize %zu < requested %zu for scalable_aligned_malloc(%zu, %zu)", scalable_msize(p[i]), n, n, a); h.check_all("after scalable_aligned_malloc"); }
+    { ShadowHeap::Blk b = h.take(p[1], "aligned_realloc"); unsigned char* q = (unsigned char*)scalable_aligned_realloc(p[1], n, a); if (!q) vf_fail("scalable_aligned_realloc to the same size failed");
+      if (!ShadowHeap::intact(q, b.n, b.pat, n)) vf_fail("scalable_aligned_realloc(%zu -> %zu, %zu) lost the old contents", n, n, a); h.add(q, n, a, "scalable_aligned_realloc"); p[1] = q; }
+    { ShadowHeap::Blk b = h.take(p[2], "realloc"); unsigned char* q = (unsigned char*)scalable_realloc(p[2], n + 40); if (!q) vf_fail("scalable_realloc of an aligned block failed");
+      if (!ShadowHeap::intact(q, b.n, b.pat, n)) vf_fail("scalable_realloc(%zu -> %zu) of a block from scalable_aligned_malloc(%zu, %zu) lost the old contents", n, n + 40, n, a); h.add(q, n + 40, 0, "scalable_realloc"); p[2] = q; }
+    h.check_all("after realloc of over-aligned blocks");
+    for (int i : {2, 0, 3, 1}) { h.take(p[i], "free"); scalable_free(p[i]); h.check_all("after free of an over-aligned block"); }
+    void* again = scalable_malloc(n); if (!again) vf_fail("scalable_malloc failed"); h.add(again, n, natural_align(n), "scalable_malloc"); h.check_all("malloc after the frees"); h.take(again, "free"); scalable_free(again);
+}
 static void scenario(long c) {
     ShadowHeap h;
     if (c < NA) { for (size_t n = (size_t)c * 64; n < (size_t)(c + 1) * 64; n++) one_size(n, h); vf_outcome("sizes %ld..%ld", c * 64, c * 64 + 63); }
     else if (c < NA + NB) { size_t n = bsizes[c - NA]; one_size(n, h); vf_outcome("size %zu", n); }
     else if (c < NA + NB + NC) { long i = c - NA - NB; size_t a = aligns[i % aligns.size()], n = (size_t[]){1, 8, 63, 1000, 8129, 70000, 1u << 21}[i / aligns.size()]; one_align(a, n, h); vf_outcome("align %zu size %zu", a, n); }
     else if (c < NA + NB + NC + NE) { region_share(c - NA - NB - NC, h); vf_outcome("region share %ld", c - NA - NB - NC); }
-    else { std::string d; sequence(c - NA - NB - NC - NE, d); vf_outcome("%s", d.c_str()); }
+    else if (c < NA + NB + NC + NE + NF) { char d[96]; aligned_boundary(c - NA - NB - NC - NE, h, d); vf_outcome("%s", d); }
+    else { std::string d; sequence(c - NA - NB - NC - NE - NF, d); vf_outcome("%s", d.c_str()); }
     if (!h.live.empty()) vf_fail("harness error: live blocks left");
 }
 int main(int argc, char** argv) {
@@ -84,5 +103,5 @@ int main(int argc, char** argv) {
     for (int k = 0; k <= 30; k++) aligns.push_back((size_t)1 << k); for (size_t a : {0ul, 3ul, 24ul, 100ul}) aligns.push_back(a);
     NB = (long)bsizes.size(); NC = (long)aligns.size() * 7; depth = 4; for (int i = 1; i + 1 < argc; i++) if (!strcmp(argv[i], "-p") && !strncmp(argv[i + 1], "depth=", 6)) depth = atoi(argv[i + 1] + 6);
     ND = 1; for (int i = 0; i < depth; i++) ND *= 12;
-    return vf_main_cases(argc, argv, NA + NB + NC + NE + ND, scenario);
+    return vf_main_cases(argc, argv, NA + NB + NC + NE + NF + ND, scenario);
 }
